@@ -3,7 +3,7 @@ Id allocation over the units of a project (`LangRun.langRun`): every unit is wel
 ranges of different units are disjoint and increasing.
 -/
 import LianVerif.Model.LangRun
-import LianVerif.Proofs.MainFunc
+import LianVerif.Proofs.MainFuncOrder
 
 namespace LianVerif.Gir
 open LianVerif.LangRun LianVerif.MainFunc
@@ -93,6 +93,24 @@ theorem stamp_wfCore (u : Nat) (bk : String → Bool) (hbk : bk "unit_id" = fals
       subst hkv
       rw [hbk] at hb; cases hb
 
+theorem stamp_ordered (u : Nat) {rows : Rows} (h : rows.Pairwise OrdRel) : (rows.map (stamp u)).Pairwise OrdRel := by
+  rw [List.pairwise_map]
+  exact h.imp (fun hab => hab)
+
+theorem stamp_isUnitInit (W : WfParams) (u : Nat) (r : Row) : isUnitInit W (stamp u r) = isUnitInit W r := by
+  simp only [isUnitInit, stamp_op, stamp_parent, Row.get, stamp]
+  rw [assocGet_assocSet_ne _ _ _ _ (by decide)]
+
+theorem stamp_one_init (W : WfParams) (u : Nat) {rows : Rows} (h : (rows.filter (isUnitInit W)).length ≤ 1) :
+    ((rows.map (stamp u)).filter (isUnitInit W)).length ≤ 1 := by
+  have : (rows.map (stamp u)).filter (isUnitInit W) = (rows.filter (isUnitInit W)).map (stamp u) := by
+    rw [List.filter_map]
+    congr 1
+    apply List.filter_congr
+    intro x _
+    simp [stamp_isUnitInit]
+  rw [this, List.length_map]; exact h
+
 /-! ### one unit -/
 
 /-- the rows saved for one unit: core clauses, `top_decl`, ids inside `[n, n' + 2)` where `n'` is the
@@ -100,11 +118,12 @@ counter `flatten` returns. -/
 theorem unitRun_spec (P : LangRun.Params) (bk : String → Bool) (hbk1 : bk "original_stmt" = false)
     (hbk2 : bk "unit_id" = false) (n uid : Nat) (hn : 1 ≤ n) (tree : Option JVal)
     (hwf : ∀ t, tree = some t → treeFalsy (some t) = false → WfGir bk t = true) :
-    ∃ n' rows?, unitRun P n uid tree = .ok (n', rows?) ∧ n ≤ n' ∧
+    ∃ n' rows?, unitRunGir P n uid tree = .ok (n', rows?) ∧ n ≤ n' ∧
       ∀ rows, rows? = some rows →
         (∀ r ∈ rows, n ≤ r.id ∧ r.id < n' + 2) ∧ WFCore bk rows ∧
-        (∀ r ∈ rows, r.isMarker = false → r.parent = 0 → MainFunc.keepsTop P.main r.op = true) := by
-  unfold unitRun
+        (∀ r ∈ rows, r.isMarker = false → r.parent = 0 → MainFunc.keepsTop P.main r.op = true) ∧
+        rows.Pairwise OrdRel := by
+  unfold unitRunGir
   by_cases hf : treeFalsy tree = true
   · rw [if_pos hf]
     exact ⟨n, none, rfl, Nat.le_refl _, fun rows h => by cases h⟩
@@ -123,7 +142,7 @@ theorem unitRun_spec (P : LangRun.Params) (bk : String → Bool) (hbk1 : bk "ori
       have hcore : WFCore bk rows := hseg.wfCore hn hlvl
       have hcore' := addMainFunc_wfCore P.main bk hcore
       have hkeys := addMainFunc_keys P.main hseg.keys
-      refine ⟨?_, stamp_wfCore uid bk hbk2 hcore' hkeys, ?_⟩
+      refine ⟨?_, stamp_wfCore uid bk hbk2 hcore' hkeys, ?_, ?_⟩
       · intro r hr
         obtain ⟨x, hx, rfl⟩ := List.mem_map.1 hr
         rw [stamp_id]
@@ -173,6 +192,8 @@ theorem unitRun_spec (P : LangRun.Params) (bk : String → Bool) (hbk1 : bk "ori
       · intro r hr hm hp
         obtain ⟨x, hx, rfl⟩ := List.mem_map.1 hr
         exact addMainFunc_top_decl P.main hcore.ids_pos x hx hm hp
+      · exact stamp_ordered uid (addMainFunc_ordered P.main (shape_of_lvl (hlvl (fun _ _ => false) false none))
+          hcore.ids_pos hcore.ids_unique (inc_of_ids hseg.ids))
 
 /-! ### the whole run -/
 
@@ -181,13 +202,14 @@ theorem unitRun_spec (P : LangRun.Params) (bk : String → Bool) (hbk1 : bk "ori
 processed later (so the ranges are disjoint). -/
 theorem langRun_spec (P : LangRun.Params) (bk : String → Bool) (hbk1 : bk "original_stmt" = false)
     (hbk2 : bk "unit_id" = false) (hI : 2 ≤ P.interval) :
-    ∀ (units : List (Nat × Option JVal)) (n : Nat), 1 ≤ n →
-      (∀ u ∈ units, ∀ t, u.2 = some t → treeFalsy (some t) = false → WfGir bk t = true) →
+    ∀ (units : List (Nat × Frontend)) (n : Nat), 1 ≤ n →
+      (∀ u ∈ units, ∀ t, u.2 = .gir (some t) → treeFalsy (some t) = false → WfGir bk t = true) →
       ∃ us nf, langRun P n units = .ok (us, nf) ∧ n ≤ nf ∧
         (∀ u ∈ us, ∀ r ∈ u.2, n ≤ r.id ∧ r.id < nf) ∧
         us.Pairwise (fun u v => ∀ a ∈ u.2, ∀ b ∈ v.2, a.id < b.id) ∧
         (∀ u ∈ us, WFCore bk u.2 ∧
-          (∀ r ∈ u.2, r.isMarker = false → r.parent = 0 → MainFunc.keepsTop P.main r.op = true)) := by
+          (∀ r ∈ u.2, r.isMarker = false → r.parent = 0 → MainFunc.keepsTop P.main r.op = true) ∧
+          u.2.Pairwise OrdRel) := by
   intro units
   induction units with
   | nil =>
@@ -195,20 +217,30 @@ theorem langRun_spec (P : LangRun.Params) (bk : String → Bool) (hbk1 : bk "ori
     exact ⟨[], n, rfl, Nat.le_refl _, by simp, List.Pairwise.nil, by simp⟩
   | cons u rest ih =>
     intro n hn hwf
-    obtain ⟨uid, tree⟩ := u
-    obtain ⟨n', rows?, hu, hle, hspec⟩ :=
-      unitRun_spec P bk hbk1 hbk2 n uid hn tree (fun t ht hf => hwf (uid, tree) List.mem_cons_self t ht hf)
+    obtain ⟨uid, fe⟩ := u
+    have hunit : ∃ n' rows?, unitRun P n uid fe = .ok (n', rows?) ∧ n ≤ n' ∧
+        ∀ rows, rows? = some rows →
+          (∀ r ∈ rows, n ≤ r.id ∧ r.id < n' + 2) ∧ WFCore bk rows ∧
+          (∀ r ∈ rows, r.isMarker = false → r.parent = 0 → MainFunc.keepsTop P.main r.op = true) ∧
+          rows.Pairwise OrdRel := by
+      cases fe with
+      | raised cls => exact ⟨n, none, rfl, Nat.le_refl _, fun rows h => by cases h⟩
+      | gir tree =>
+        exact unitRun_spec P bk hbk1 hbk2 n uid hn tree
+          (fun t ht hf => hwf (uid, .gir tree) List.mem_cons_self t (by rw [ht]) hf)
+    obtain ⟨n', rows?, hu, hle, hspec⟩ := hunit
     have hadj := adjust_ge P.interval n'
     obtain ⟨us, nf, hrest, hle2, hb2, hp2, hw2⟩ :=
       ih (adjustNodeId P.interval n') (by omega) (fun v hv => hwf v (List.mem_cons_of_mem _ hv))
+    have hrest' : langRunWith P.interval (unitRun P) (adjustNodeId P.interval n') rest = .ok (us, nf) := hrest
     cases hr : rows? with
     | none =>
-      refine ⟨us, nf, by simp only [langRun, hu, hrest, hr], by omega, ?_, hp2, hw2⟩
+      refine ⟨us, nf, by simp only [langRun, langRunWith, hu, hrest', hr], by omega, ?_, hp2, hw2⟩
       intro v hv r hr'
       have := hb2 v hv r hr'; omega
     | some rows =>
-      obtain ⟨hb, hcore, htop⟩ := hspec rows hr
-      refine ⟨(uid, rows) :: us, nf, by simp only [langRun, hu, hrest, hr], by omega, ?_, ?_, ?_⟩
+      obtain ⟨hb, hcore, htop, hord⟩ := hspec rows hr
+      refine ⟨(uid, rows) :: us, nf, by simp only [langRun, langRunWith, hu, hrest', hr], by omega, ?_, ?_, ?_⟩
       · intro v hv r hr'
         rcases List.mem_cons.1 hv with rfl | hv
         · have := hb r hr'; omega
@@ -220,7 +252,7 @@ theorem langRun_spec (P : LangRun.Params) (bk : String → Bool) (hbk1 : bk "ori
         omega
       · intro v hv
         rcases List.mem_cons.1 hv with rfl | hv
-        · exact ⟨hcore, htop⟩
+        · exact ⟨hcore, htop, hord⟩
         · exact hw2 v hv
 
 end LianVerif.Gir
